@@ -24,6 +24,7 @@ Cross-render: the `date` filter's lru_cache witness (known finding).
 from __future__ import annotations
 
 import html as _html
+import io
 import json as _json
 import re
 import urllib.parse as _up
@@ -365,6 +366,28 @@ class Recorder:
 
 
 _ENV = None
+_LOOP = None
+
+
+def arun(coro: Any) -> Any:
+    """Run a coroutine on the one event loop of this check run."""
+    global _LOOP
+    if _LOOP is None or _LOOP.is_closed():
+        import asyncio
+        _LOOP = asyncio.new_event_loop()
+    return _LOOP.run_until_complete(coro)
+
+
+def render_modes(tmpl: Any, data: dict[str, Any]) -> dict[str, tuple]:
+    """The text of a template under the sync and the async API."""
+    out: dict[str, tuple] = {}
+    for mode in ("sync", "async"):
+        try:
+            txt = tmpl.render(**data) if mode == "sync" else arun(tmpl.render_async(**data))
+            out[mode] = ("ok", txt)
+        except Exception as e:  # noqa: BLE001
+            out[mode] = ("exc", exc_term(e), type(e).__name__)
+    return out
 
 
 def code_version() -> dict[str, bool]:
@@ -413,7 +436,6 @@ def run_case(left: tuple, chain: list[tuple]) -> dict[str, Any]:
         tmpl = env().from_string(src)
         try:
             ctx = RenderContext(tmpl, global_data=tmpl.make_globals(dict(s.data)))
-            import io
             for node in tmpl.nodes[:-1]:
                 node.render(ctx, io.StringIO())
             v = tmpl.nodes[-1].expression.evaluate(ctx)
@@ -422,10 +444,29 @@ def run_case(left: tuple, chain: list[tuple]) -> dict[str, Any]:
             raise
         except Exception as e:  # noqa: BLE001
             out["typed"] = ("exc", exc_term(e), type(e).__name__)
+        modes = render_modes(tmpl, s.data)
+        out["text"] = modes["sync"]
+        out["text_async"] = modes["async"]
+        # the async twin of the expression: FilteredExpression.evaluate_async
         try:
-            out["text"] = ("ok", tmpl.render(**s.data))
+            ctx2 = RenderContext(tmpl, global_data=tmpl.make_globals(dict(s.data)))
+            for node in tmpl.nodes[:-1]:
+                arun(node.render_async(ctx2, io.StringIO()))
+            out["typed_async"] = ("ok", enc(arun(tmpl.nodes[-1].expression.evaluate_async(ctx2))))
+        except Unmodelled:
+            raise
         except Exception as e:  # noqa: BLE001
-            out["text"] = ("exc", exc_term(e), type(e).__name__)
+            out["typed_async"] = ("exc", exc_term(e), type(e).__name__)
+        # the same expression written by the `echo` tag (sync and async twins):
+        # must write exactly what the output statement writes
+        out["echo"] = {}
+        if "%}" not in expr:
+            try:
+                et = env().from_string("".join(s.pre) + "{% echo " + expr + " %}")
+                out["echo"] = render_modes(et, s.data)
+                out["echo_src"] = "".join(s.pre) + "{% echo " + expr + " %}"
+            except Exception as e:  # noqa: BLE001
+                out["echo"] = {"sync": ("exc", exc_term(e), type(e).__name__)}
     out["rec"] = rec
     return out
 
@@ -435,8 +476,15 @@ def c_case(left: tuple, chain: list[tuple], r: dict[str, Any]) -> tuple[str, str
     le, ch = c_left(left), c_chain(chain)
     ty = f"(Ok {c_val(r['typed'][1])})" if r["typed"][0] == "ok" else r["typed"][1]
     tx = f"(Ok {C.cstr(r['text'][1])})" if r["text"][0] == "ok" else r["text"][1]
+    extra = ""
+    ta = r.get("typed_async")
+    if ta is not None and ta[:2] != r["typed"][:2]:
+        extra += " && rv_eqb (typed L e ch) " + (f"(Ok {c_val(ta[1])})" if ta[0] == "ok" else ta[1])
+    for other in [r.get("text_async")] + list(r.get("echo", {}).values()):
+        if other is not None and other[:2] != r["text"][:2]:
+            extra += " && rs_eqb (output L e ch) " + (f"(Ok {C.cstr(other[1])})" if other[0] == "ok" else other[1])
     case = (f"(let L := {L} in let e := {le} in let ch := {ch} in "
-            f"rv_eqb (typed L e ch) {ty} && rs_eqb (output L e ch) {tx})")
+            f"rv_eqb (typed L e ch) {ty} && rs_eqb (output L e ch) {tx}{extra})")
     model = f"let L := {L} in (typed L {le} {ch}, output L {le} {ch})"
     return case, model, case.count(";") + case.count("[")
 
@@ -463,7 +511,7 @@ def syntactic_oracle(src: str, out: str) -> str | None:
     names = filter_names(src)
     s = out
     if "tablerow" in src:
-        s = re.sub(r'</?t[rd](?: class="(?:row|col)\d+")?>', "", s)
+        s = re.sub(r'(?i)</?t[rd](?: class="(?:row|col)\d+")?>', "", s)
     if "newline_to_br" in names:
         s = re.sub(r"(?i)<br />", "", s)
         if names & (set(CUTTERS) | set(CASE)) - {"join", "concat"}:
@@ -823,13 +871,16 @@ def expression_level(chk: C.Check, r, n_random: int, max_len: int, budget_numera
 
     items: list[dict[str, Any]] = []
     stats = {"cases": 0, "unmodelled": 0, "errors": 0, "markup_results": 0, "oracle_checked": 0,
-             "origin_checked": 0, "strip_tags_calls": 0, "by_len": {}}
+             "origin_checked": 0, "strip_tags_calls": 0, "by_len": {}, "modes": {}}
     nontrivial: set[str] = set()
     numerals = 0
     samples = []
 
     def render(src: str, data: dict[str, Any]) -> str:
         return env().from_string(src).render(**data)
+
+    def render_a(src: str, data: dict[str, Any]) -> str:
+        return arun(env().from_string(src).render_async(**data))
 
     for left, chain in cases:
         try:
@@ -848,23 +899,31 @@ def expression_level(chk: C.Check, r, n_random: int, max_len: int, budget_numera
             if not subseq_with_inserts(v, k):
                 chk.finding("strip_tags-not-a-copy", f"strip_tags({k!r}) = {v!r} is not its input with deletions and inserted '&', '#', ';'",
                             {"input": k, "output": v, "src": src, "data": data})
-        # direct oracle
+        # direct oracle, on what the output statement AND the echo tag write, under the sync AND the async API
         plain_case = not uses_safe_or_markup_literal(left, chain)
-        if plain_case and res["text"][0] == "ok":
-            out = res["text"][1]
-            stats["oracle_checked"] += 1
-            fail = syntactic_oracle(src, out)
-            if fail is None and structural_chain(left, chain):
-                stats["origin_checked"] += 1
-                fail2 = origin_oracle(render, src, data, out)
-                if fail2 is not None:
-                    fail = "origin: " + fail2
-            if fail:
-                chk.finding("oracle:" + fail.split(":")[0][:40], f"{src} with {data!r} renders {out!r}: {fail}",
-                            {"src": src, "data": data, "output": out, "how": "Environment(auto_escape=True).from_string(src).render(**data)"})
-            # non-trivial: data specials met the escaping mechanism (the data has
-            # a special and the output has an entity or dropped it via a filter)
-            if any(any(c in str(v) for c in SPECIALS) for v in data.values()):
+        if plain_case:
+            esrc = res.get("echo_src", src)
+            views = [("render", src, res["text"], render), ("render_async", src, res["text_async"], render_a),
+                     ("echo render", esrc, res["echo"].get("sync"), render), ("echo render_async", esrc, res["echo"].get("async"), render_a)]
+            structural = structural_chain(left, chain)
+            for how, vsrc, outcome, rfn in views:
+                if outcome is None or outcome[0] != "ok":
+                    continue
+                out = outcome[1]
+                stats["oracle_checked"] += 1
+                stats["modes"][how] = stats["modes"].get(how, 0) + 1
+                fail = syntactic_oracle(vsrc, out)
+                if fail is None and structural:
+                    stats["origin_checked"] += 1
+                    fail2 = origin_oracle(rfn, vsrc, data, out)
+                    if fail2 is not None:
+                        fail = "origin: " + fail2
+                if fail:
+                    chk.finding("oracle:" + fail.split(":")[0][:40], f"[{how}] {vsrc} with {data!r} writes {out!r}: {fail}",
+                                {"src": vsrc, "data": data, "output": out,
+                                 "how": f"Environment(auto_escape=True).from_string(src): {how}(**data)"})
+            # non-trivial: data specials met the escaping mechanism
+            if res["text"][0] == "ok" and any(any(c in str(v) for c in SPECIALS) for v in data.values()):
                 nontrivial.add(src + repr(data))
         if res["typed"][0] == "ok" and _has_markup(res["typed"][1]):
             stats["markup_results"] += 1
@@ -924,14 +983,20 @@ def oracle_only_chains(chk: C.Check, r, n: int) -> dict[str, Any]:  # noqa: ANN0
                     continue
         src = "{{ " + " | ".join(parts) + " }}"
         try:
-            out = env().from_string(src).render(**s.data)
+            modes = render_modes(env().from_string(src), s.data)
         except Exception:  # noqa: BLE001
             continue
+        if modes["sync"][0] != "ok" and modes["async"][0] != "ok":
+            continue
         done += 1
-        fail = syntactic_oracle(src + " | slice", out)   # no judgement on '&': cutting filters may be present
-        if fail:
-            chk.finding("oracle:" + fail[:40], f"{src} with {s.data!r} renders {out!r}: {fail}",
-                        {"src": src, "data": s.data, "output": out})
+        for how, outcome in modes.items():
+            if outcome[0] != "ok":
+                continue
+            out = outcome[1]
+            fail = syntactic_oracle(src + " | slice", out)   # no judgement on '&': cutting filters may be present
+            if fail:
+                chk.finding("oracle:" + fail[:40], f"[{how}] {src} with {s.data!r} renders {out!r}: {fail}",
+                            {"src": src, "data": s.data, "output": out, "mode": how})
         if any(c in repr(s.data) for c in "<>&"):
             nontrivial.add(src + repr(s.data))
     return {"rendered": done, "nontrivial": nontrivial}
@@ -973,14 +1038,13 @@ def date_cases() -> list[dict[str, Any]]:
                 ty = f"(Ok {c_val(enc(tmpl.nodes[0].expression.evaluate(ctx)))})"
             except Exception as e:  # noqa: BLE001
                 ty = exc_term(e)
-            try:
-                tx = f"(Ok {C.cstr(tmpl.render(**data))})"
-            except Exception as e:  # noqa: BLE001
-                tx = exc_term(e)
+            md = render_modes(tmpl, data)
+            tx = f"(Ok {C.cstr(md['sync'][1])})" if md["sync"][0] == "ok" else md["sync"][1]
+            txa = f"(Ok {C.cstr(md['async'][1])})" if md["async"][0] == "ok" else md["async"][1]
             tab = C.clist([C.cpair(C.cpair(C.cstr(dat), C.cstr(fmt)), C.copt(None if lib is None else C.cstr(lib), "str"))],
                           "((str * str) * option str)")
             m = f"(date_filter (dtbl {tab}) {C.cstr(dat)} ({C.cbool(kind == 'lit')}, {C.cstr(fmt)}))"
-            items.append({"case": f"(rv_eqb (Ok (vstr {m})) {ty} && rs_eqb (Ok (tls_ae (vstr {m}))) {tx})",
+            items.append({"case": f"(rv_eqb (Ok (vstr {m})) {ty} && rs_eqb (Ok (tls_ae (vstr {m}))) {tx} && rs_eqb (Ok (tls_ae (vstr {m}))) {txa})",
                           "model": f"vstr {m}",
                           "replay": {"src": src, "data": data, "library_strftime": lib, "typed": ty, "text": tx}})
     return items
